@@ -172,6 +172,8 @@ class Engine:
     def sort_of_kind(self, k):
         if k in SORTS:
             return SORTS[k]
+        if self.world is not None and k in getattr(self.world, 'extra_sorts', {}):
+            return self.world.extra_sorts[k][0]
         if k == 'val':
             return self.world.Val
         if k == 'fn':
@@ -179,6 +181,8 @@ class Engine:
         raise EngineError('no sort for element kind %r' % k)
 
     def wrap(self, kind, term):
+        if self.world is not None and kind in getattr(self.world, 'extra_sorts', {}):
+            return self.world.extra_sorts[kind][1](term)
         if kind in ('int', 'real', 'bool', 'str'):
             return mk(kind, term)
         if kind == 'cls':
@@ -191,6 +195,8 @@ class Engine:
 
     def unwrap(self, v, kind):
         """z3 term of value v coerced to element kind"""
+        if self.world is not None and kind in getattr(self.world, 'extra_sorts', {}):
+            return self.world.extra_sorts[kind][2](self, v)
         if kind == 'int':
             return to_int(v)
         if kind == 'real':
@@ -214,6 +220,8 @@ class Engine:
     # truthiness / comparisons / arithmetic (shared by code and spec mode)
     # ------------------------------------------------------------------
     def truth(self, st, v):
+        if hasattr(v, 'sv_truth'):
+            return v.sv_truth(self, st)
         k = v.kind
         if k == 'bool':
             return v.term
@@ -246,6 +254,10 @@ class Engine:
         raise EngineError('truthiness of %s' % k)
 
     def binop(self, op, a, b, st=None):
+        if hasattr(a, 'sv_binop'):
+            return a.sv_binop(self, st, op, b, False)
+        if hasattr(b, 'sv_binop'):
+            return b.sv_binop(self, st, op, a, True)
         if isinstance(op, ast.Add) and a.kind == 'str' and b.kind == 'str':
             return VStr(smt.concat_s(a.term, b.term))
         if isinstance(op, ast.Add) and a.kind == 'tuple' and b.kind == 'tuple':
@@ -266,8 +278,9 @@ class Engine:
             self._bit01 = True
             return VInt(z3.If(z3.Xor(ta, tb), z3.IntVal(1), z3.IntVal(0)))
         if isinstance(op, ast.Mod) and a.kind == 'str':
-            # '%'-formatting: an opaque string constructor
-            return VStr(fresh('fmt', Str))
+            # '%'-formatting: an opaque string constructor; the literal text before the first directive is kept, so
+            # that a message is known to be non-empty
+            return self.formatted(a)
         if not (is_num(a) and is_num(b)):
             raise EngineError('binary %s on %s, %s' % (type(op).__name__, a.kind, b.kind))
         real = a.kind == 'real' or b.kind == 'real' or isinstance(op, ast.Div)
@@ -292,8 +305,19 @@ class Engine:
             raise EngineError('unsupported operator %s' % type(op).__name__)
         return VReal(r) if real else VInt(r)
 
+    def formatted(self, template):
+        txt = smt.lit_text(template.term) if template.kind == 'str' else None
+        prefix = txt.split('%')[0] if txt else ''
+        if prefix:
+            return VStr(smt.concat_s(smt.str_lit(prefix), fresh('fmt', Str)))
+        return VStr(fresh('fmt', Str))
+
     def compare(self, st, op, a, b):
         """z3 Bool for a <op> b"""
+        if hasattr(a, 'sv_compare') and not isinstance(op, (ast.In, ast.NotIn)):
+            return a.sv_compare(self, st, op, b, False)
+        if hasattr(b, 'sv_compare') and not isinstance(op, (ast.In, ast.NotIn)):
+            return b.sv_compare(self, st, op, a, True)
         if isinstance(op, (ast.Is, ast.IsNot)):
             t = self.identical(st, a, b)
             return z3.Not(t) if isinstance(op, ast.IsNot) else t
@@ -343,6 +367,10 @@ class Engine:
         raise EngineError('is-comparison of %s and %s' % (a.kind, b.kind))
 
     def equal(self, st, a, b):
+        if hasattr(a, 'sv_compare'):
+            return a.sv_compare(self, st, ast.Eq(), b, False)
+        if hasattr(b, 'sv_compare'):
+            return b.sv_compare(self, st, ast.Eq(), a, True)
         if a.kind == 'opt' or b.kind == 'opt':
             if a.kind != 'opt':
                 a, b = b, a
@@ -420,6 +448,12 @@ class Engine:
         return None
 
     def contains(self, st, cont, x):
+        if hasattr(cont, 'sv_contains'):
+            return cont.sv_contains(self, st, x)
+        if hasattr(x, 'sv_member_of'):
+            r = x.sv_member_of(self, st, cont)
+            if r is not None:
+                return r
         if cont.kind == 'tuple':
             return z3.Or([self.equal(st, x, it) for it in cont.items] or [z3.BoolVal(False)])
         if cont.kind == 'ref':
@@ -540,6 +574,8 @@ class Engine:
         return self.index_pure(st, base, idx)
 
     def index_pure(self, st, base, idx):
+        if hasattr(base, 'sv_index_pure'):
+            return base.sv_index_pure(self, st, idx)
         if base.kind == 'opt':
             return self.index_pure(st, base.val, idx)
         if base.kind == 'tuple':
@@ -737,6 +773,8 @@ class Engine:
         return v
 
     def length(self, st, v):
+        if hasattr(v, 'sv_len'):
+            return v.sv_len(self, st)
         if v.kind == 'opt':
             return self.length(st, v.val)
         if v.kind == 'tuple':
@@ -771,6 +809,12 @@ class Engine:
                 lo, hi = (z3.IntVal(0), args[0]) if len(args) == 1 else (args[0], args[1])
                 guards.append(z3.And(lo <= k, k < hi))
                 bound[nm] = VInt(k)
+                vars_.append(k)
+            elif isinstance(it, ast.Call) and isinstance(it.func, ast.Name) and self.world is not None \
+                    and it.func.id.rstrip('s') in getattr(self.world, 'extra_sorts', {}):
+                kind = it.func.id.rstrip('s')
+                k = fresh(nm, self.world.extra_sorts[kind][0])
+                bound[nm] = self.world.extra_sorts[kind][1](k)
                 vars_.append(k)
             elif isinstance(it, ast.Call) and isinstance(it.func, ast.Name) and it.func.id in ('ints', 'strs', 'reals'):
                 srt = {'ints': I, 'strs': Str, 'reals': R}[it.func.id]
